@@ -94,6 +94,8 @@ fn related(p1: &Obs, p2: &Obs) -> Result<(), &'static str> {
     match (p1, p2) {
         (Obs::Rejected(c), Obs::Ran { code: Some(6), .. }) if c == "lint:Overflow" => Ok(()),
         (Obs::Rejected(c), Obs::Ran { code: Some(11), .. }) if c == "lint:DivisionByZero" => Ok(()),
+        // the expression fails the same way at run time (whether it should is another property's business)
+        (Obs::Rejected(c), Obs::Ran { code: Some(13), .. }) if c == "lint:TypeMismatch" => Ok(()),
         (Obs::Rejected(c), _) if c == "lint:Overflow" || c == "lint:DivisionByZero" => Err("constant rejected for overflow / division by zero although evaluating the expression at run time does not raise that error"),
         (Obs::Rejected(_), Obs::Rejected(_)) => Ok(()), // the expression itself is not accepted: outside the property
         (Obs::Rejected(_), _) => Err("constant definition rejected although the checker accepts the expression and it evaluates at run time"),
@@ -135,7 +137,11 @@ impl Case {
         self.wrap(&format!("CONST {} = {}\nPRINT {}\n", self.name, self.expr, self.name))
     }
     fn p2(&self) -> String {
-        self.wrap(&format!("PRINT {}\n", self.expr))
+        // a suffixed constant is e converted to the suffix type: the run-time counterpart is a variable of that type
+        match self.name.chars().last() {
+            Some(q @ ('%' | '&' | '!' | '#')) if !self.is_string => self.wrap(&format!("ZV{} = {}\nPRINT ZV{}\n", q, self.expr, q)),
+            _ => self.wrap(&format!("PRINT {}\n", self.expr)),
+        }
     }
     /// a program using the constant several times / the same with every use replaced by (e)
     fn p3(&self, substituted: bool) -> String {
@@ -199,7 +205,8 @@ fn check(case: &Case) -> Result<(Obs, Obs), Violation> {
         return Err(Violation::new(format!("c14-p1p2:{}:{}", kind, sig_tail), why, case.inputs()).exp_obs(json!({"PRINT e": obs_json(&p2), "program": case.p2()}), json!({"CONST c = e : PRINT c": obs_json(&p1), "program": case.p1()})));
     }
     // substitution
-    if matches!(p1, Obs::Ran { ok: true, .. }) {
+    let suffixed = !case.is_string && case.name.ends_with(['%', '&', '!', '#']);
+    if matches!(p1, Obs::Ran { ok: true, .. }) && !suffixed {
         let a = observe(&case.p3(false));
         let b = observe(&case.p3(true));
         if a != b {
